@@ -51,7 +51,7 @@ def strip_comments(text):
 
 
 def lexemes(text):
-    text = strip_comments(text)
+    text = strip_comments(text).replace('__', ' __ ')   # the dunder marker is a lexeme of its own
     out = Counter()
     i = 0
     n = len(text)
